@@ -29,6 +29,9 @@ STAGES = {
             ('rerender-and-delete', 'MimeBuild', cfg(MAXP='3', MAXE='1', MAXA='1', ENCS='{"qp", "b64"}', DELS='{0, 1, 2}', ROTS='{3}',
                                                     CCS='<<"size6000", "crlf", "size900">>', SRCS='<<"seeker", "reader", "chunk57">>',
                                                     OPSEQS='{<<"WriteTo", "WriteTo">>, <<"FailSink", "WriteTo">>, <<"FailSinkMid", "WriteTo">>, <<"FailSinkLate", "WriteTo">>, <<"Reader", "WriteTo">>}')),
+            # three body parts out of templates with part options (the third is a text/plain alternative from a text template)
+            ('template-alternatives', 'MimeBuild', cfg(MAXP='3', MAXE='0', MAXA='0', ENCS='{"qp", "8bit"}', PENCS='{"b64", "qp"}', PDESCS='{"", "plain"}', PRODS='<<"tpl">>',
+                                                     CCS='<<"crlf", "utf8", "oneline">>', ROTS='{0, 1}')),
             # the same configuration through the setter methods of Msg and Part; content out of text/html templates; files of an embed.FS
             ('setters-templates-embedfs', 'MimeBuild', cfg(MAXP='2', MAXE='1', MAXA='2', ENCS='{"qp", "b64", "8bit"}', PENCS='{"", "b64"}', STYLES='{"", "set"}',
                                                          BOUNDARIES='{"", "fixed"}', PDESCS='{"", "plain"}', ROTS='{0, 1, 2}',
@@ -205,7 +208,7 @@ SPEC_BY_BASE = {'Smime': 'SSpec'}
 REPLAY_ENV = {'C18': {'VERIF_B64': '1'}}
 SENS_INVS = ['Verifies', 'CounterClean']
 SENS_INVS_BY_BASE = {'B64Line': ['NeverTooLong']}
-SHDR = ["genempty", "genmulti", "toignore", "ccignore", "ccsome", "preform", "subject", "gen", "fromname"]
+SHDR = ["genempty", "genmulti", "toignore", "ccignore", "ccsome", "preform", "subject", "gen", "fromname", "envonly", "genmultiempty"]
 STAGES['C08'] = {
     'quick': [
         ('shapes-keys-inter', 'Smime', scfg(MAXP='2', MAXE='1', MAXA='1', SMIMES=KEYS4, ROTS='{0, 3}', BOUNDARIES='{"", "fixed"}')),
@@ -280,6 +283,15 @@ STAGES['C02']['thorough'].append(
 STAGES['C11']['quick'].append(
     ('signed-histories', 'MimeBuild', cfg(MAXP='2', MAXE='1', MAXA='1', ENCS='{"qp"}', SMIMES=KEYS2, CCS='<<"crlf", "utf8", "size900">>',
                                            OPSEQS='{<<a, b, c>> : a \\in {"WriteTo", "Reader", "FailSinkLate", "FailSinkMid", "SkipMw"}, b \\in {"Write", "File", "FailSinkLate", "UpdateReader", "SkipMw", "Sendmail"}, c \\in {"WriteTo", "TempFile", "SkipMw"}}')))
+# header programs whose stored values a render must not touch (several values, one of them empty; no From address)
+STAGES['C11']['quick'].append(
+    ('header-programs', 'MimeBuild', cfg(MAXP='1', MAXE='0', MAXA='1', ENCS='{"qp"}', CCS='<<"crlf">>', HDRS=hdrsets(["genmultiempty", "genmulti", "envonly", "ccsome"], ["plain", "long"]),
+                                         OPSEQS='{<<"WriteTo", "WriteTo">>, <<"Reader", "File", "WriteTo">>}')))
+# a producer outage while a SIGNED message is rendered, then renders after the source is back
+STAGES['C11']['quick'].append(
+    ('signed-producer-outage', 'MimeBuild', cfg(MAXP='2', MAXE='0', MAXA='1', ENCS='{"qp"}', SMIMES=KEYS2, PRODS='<<"writer", "chunk7">>', SRCS='<<"seeker", "iofsflaky">>', ROTS='{0, 1}',
+                                                CCS='<<"crlf", "size900">>',
+                                                OPSEQS='{<<a, "BreakSrc", b, "FixSrc", c, d>> : a \\in {"WriteTo", "Reader"}, b \\in {"WriteTo", "File"}, c \\in {"WriteTo", "TempFile"}, d \\in {"WriteTo", "Reader"}}')))
 # files handed over as a seekable reader that is not at its start: every render carries what was ahead of the reader at that moment
 STAGES['C11']['quick'].append(
     ('reader-at-offset', 'MimeBuild', cfg(MAXP='1', MAXE='1', MAXA='1', ENCS='{"qp"}', SRCS='<<"readeroff">>', CCS='<<"crlf", "size900">>',
